@@ -31,7 +31,7 @@ GROUP = "npy"
 REQ = "From RV Require Import Prelude.\nFrom Coq Require Import String.\nFrom Npy Require Import Npy.\nOpen Scope N_scope."
 THEOREMS = ["C34_npy_roundtrip", "C34_parse_total", "C34_read_ok_shape", "C34_header_aligned", "C34_write_ok_iff",
             "C34_npz_name_roundtrip", "C34_st_dtype_roundtrip", "C34_large_tensor_rejected",
-            "C34_roundtrip_refuted_above_4GiB", "C34_prop_ok_sound", "C34_nonvacuous"]
+            "C34_roundtrip_refuted_above_4GiB", "C34_prop_ok_sound", "C34_npz_key_is_spec", "C34_nonvacuous"]
 F_CAP = "F34.1"
 
 
@@ -45,8 +45,10 @@ def classify(case):
 
 def main(ctx):
     ctx.rule = ("round trips: 11 dtypes x 25 shapes (0-d, empty, rank<=4, header-padding boundaries) x 4 source layouts "
-                "(contiguous/transposed/strided/broadcast) through npy (all) and npz/safetensors (a quarter in quick, all in "
-                "thorough) with varied member names; malformed .npy stream: ~700 handcrafted headers (descr, shape, huge "
+                "(contiguous/transposed/strided/broadcast) through npy (all) and npz/safetensors (a fifth in quick, all in "
+                "thorough) with varied member names; multi-entry npz/safetensors archives (1-8 entries; names with one "
+                "and several dots, '.npy' suffixes, leading/trailing dots, unicode, 300-byte names, colliding and empty "
+                "names) read back with read and read_array; malformed .npy stream: ~700 handcrafted headers (descr, shape, huge "
                 "values, fortran_order, versions 1-3, length field, UTF-8, data length), every truncation of valid files, "
                 "seeded mutations, grammar-alphabet noise and random bytes; mutated/truncated npz and safetensors archives. "
                 "A case is trivial for empty 1-d round trips; distinct = distinct input line")
